@@ -6,6 +6,10 @@ ids = [p['id'] for p in props]
 
 # id -> (level, technique, text, note)
 CLAIMED = {
+ "C17": ("exploration", "reference-model monitor (BTreeMap multimap) on real page files + structural invariant walker over the verif_dump hook",
+         "Random operation histories on empty and bulk-loaded trees over five key schemas (degree 5..~200) are checked answer-by-answer against an ordered multimap; the persisted node structure is dumped every 40 operations and checked for sorted keys, separator bounds, uniform leaf depth and leaf-chain completeness; the metadata page is re-loaded at the end.",
+         "Row ids per key are kept small in random cases because of the listed page-overflow finding; the file is not reopened through NativeStorage::open_file (it truncates)."),
+
  "C22": ("exploration", "round-trip and totality monitor (catch_unwind oracle) over a component grid + mutated texts, incl. SQL CAST/literal route",
          "Every grid value is formatted and re-parsed (exhaustive over the stated component grid); random valid values and thousands of mutated texts are fed to every temporal FromStr / Interval::new and to SQL CAST / typed literals under catch_unwind. Held = no mismatch and no panic on what was generated.",
          "Validity of dates is the harness's Gregorian rule; only panics (not wrong acceptances) are judged for hostile strings."),
